@@ -252,7 +252,7 @@ func parseFields(rec []byte) ([]field, error) {
 		}
 		mdLen := int(binary.BigEndian.Uint16(rec[i-2:]))
 		if mdLen > 0 {
-			if err := add("hdr.Md", "hdr.Md", mdLen, -1); err != nil {
+			if err := addTxMd(rec, &i, mdLen, add); err != nil {
 				return nil, err
 			}
 		}
@@ -270,7 +270,7 @@ func parseFields(rec []byte) ([]field, error) {
 		}
 		mdLen := int(binary.BigEndian.Uint16(rec[i-2:]))
 		if mdLen > 0 {
-			if err := add(p+"md", "entry.md", mdLen, e); err != nil {
+			if err := addKvMd(rec, &i, mdLen, p, e, add); err != nil {
 				return nil, err
 			}
 		}
@@ -298,6 +298,66 @@ func parseFields(rec []byte) ([]field, error) {
 		return nil, fmt.Errorf("record has %d trailing bytes", len(rec)-i)
 	}
 	return fs, nil
+}
+
+// addTxMd maps the bytes of a (well-formed) tx metadata block to its attributes: code(1), then
+// truncatedUptoTx(8) for code 0, or length(2) + payload for code 1 (extra).
+func addTxMd(rec []byte, i *int, mdLen int, add func(name, class string, w, entry int) error) error {
+	end := *i + mdLen
+	if end > len(rec) {
+		return fmt.Errorf("tx metadata block beyond the record")
+	}
+	for k := 0; *i < end; k++ {
+		code := rec[*i]
+		if err := add(fmt.Sprintf("hdr.Md.code%d", k), "hdr.Md.code", 1, -1); err != nil {
+			return err
+		}
+		switch code {
+		case 0:
+			if err := add("hdr.Md.truncTx", "hdr.Md.truncTx", 8, -1); err != nil {
+				return err
+			}
+		case 1:
+			if err := add("hdr.Md.extraLen", "hdr.Md.extraLen", 2, -1); err != nil {
+				return err
+			}
+			n := int(binary.BigEndian.Uint16(rec[*i-2:]))
+			if n > 0 {
+				if err := add("hdr.Md.extra", "hdr.Md.extra", n, -1); err != nil {
+					return err
+				}
+			}
+		default:
+			return fmt.Errorf("unknown tx metadata attribute %d", code)
+		}
+	}
+	if *i != end {
+		return fmt.Errorf("tx metadata block overruns its length")
+	}
+	return nil
+}
+
+// addKvMd: code(1), then expiresAt(8) for code 1; codes 0 (deleted) and 2 (non-indexable) carry nothing.
+func addKvMd(rec []byte, i *int, mdLen int, p string, e int, add func(name, class string, w, entry int) error) error {
+	end := *i + mdLen
+	if end > len(rec) {
+		return fmt.Errorf("kv metadata block beyond the record")
+	}
+	for k := 0; *i < end; k++ {
+		code := rec[*i]
+		if err := add(fmt.Sprintf("%smd.code%d", p, k), "entry.md.code", 1, e); err != nil {
+			return err
+		}
+		if code == 1 {
+			if err := add(p+"md.expiresAt", "entry.md.expiresAt", 8, e); err != nil {
+				return err
+			}
+		}
+	}
+	if *i != end {
+		return fmt.Errorf("kv metadata block overruns its length")
+	}
+	return nil
 }
 
 func (t *txInfo) fieldNamed(name string) *field {
@@ -329,15 +389,25 @@ func build(cfg storeCfg, rng *rand.Rand) (*image, error) {
 		if err != nil {
 			return nil, err
 		}
-		if cfg.ver == 1 && t%2 == 1 {
+		if cfg.ver == 1 && t >= 1 {
+			// tx metadata: extra only (short), truncation only, both; one near-max extra per run
 			md := store.NewTxMetadata()
-			if rng.Intn(2) == 0 {
+			switch t % 4 {
+			case 1:
+				md.WithExtra(randBytes(rng, 2+rng.Intn(3)))
+			case 2:
+				md.WithTruncatedTxID(uint64(1 + rng.Intn(2)))
+			case 3:
 				md.WithTruncatedTxID(uint64(1 + rng.Intn(3)))
+				n := 1 + rng.Intn(4)
+				if cfg.name == "v1-single" {
+					n = 250 + rng.Intn(7) // 250..256 = maxExtraLen
+				}
+				md.WithExtra(randBytes(rng, n))
 			}
-			if rng.Intn(3) > 0 {
-				md.WithExtra(randBytes(rng, 1+rng.Intn(4)))
+			if t%4 != 0 {
+				tx.WithMetadata(md)
 			}
-			tx.WithMetadata(md)
 		}
 		ne := 1 + rng.Intn(3)
 		if t == 0 {
